@@ -11,9 +11,12 @@ CONSTANTS
   MaxEx = 4
   ProbeNs <- GProbesX
   ProbeUids <- GUidsX
+  MaxOld = 2
   Exhaustive = TRUE
   Biases <- BiasOne
   TickPct = 0
   ProbePct = 0
+  StalePct = 0
+  ExInj <- InjNone
 INVARIANTS Emit
 PROPERTIES StepOfSpec
